@@ -78,7 +78,12 @@ func (o Option) DesignateNode(key ...string) Option {
 // e.g.
 // DesignateNodeWithPath({"sub graph node key", "node key within sub graph"})
 func (o Option) DesignateNodeWithPath(path ...*NodePath) Option {
-	o.paths = append(o.paths, path...)
+	// copy: o is a value copy, but its paths slice shares the backing array (and spare capacity)
+	// with the option it was derived from
+	nPaths := make([]*NodePath, 0, len(o.paths)+len(path))
+	nPaths = append(nPaths, o.paths...)
+	nPaths = append(nPaths, path...)
+	o.paths = nPaths
 	return o
 }
 
